@@ -284,7 +284,7 @@ func New(ctx context.Context, schema Schema, opts *Opts) *Machine {
 			m.semLogger.SetLevel(opts.LogLevel)
 		}
 		if opts.Tracers != nil {
-			m.tracers = opts.Tracers
+			m.tracers = slices.Clone(opts.Tracers)
 		}
 		if opts.LogArgs != nil {
 			m.logArgs.Store(&opts.LogArgs)
